@@ -46,6 +46,12 @@ def run_unit(ex, H, unit, res):
             ph, pb = pc.f[0], pc.f[1]
             ext = normalize(ex, pb)
             res['obligations'] += 1
+            if len(ext) == 0:
+                # an empty piece carries no payload: it is a (degenerate) piece of the partition as long as its header says so
+                okv, m = _valid(ex, ex.binop('Eq', H.get(ph, 'total_length'), U16(20), False))
+                if not okv:
+                    raise SpecViolation('piece-length-field', f'piece {i}: empty payload but total_length is not 20', m)
+                continue
             if len(ext) != 1 or ext[0][0] != 'D':
                 raise SpecViolation('piece-not-one-range', f'piece {i} of {len(pieces)} is not one contiguous range of the input payload: {[(e[0], str(e[1].v), str(e[2].v)) for e in ext][:3]}')
             # starts where the previous piece ended, and where its own header says it does
@@ -65,7 +71,7 @@ def run_unit(ex, H, unit, res):
     def on_end(ex, kind, r):
         res['paths'] += 1
         if kind == 'panic':
-            res['violations'].append({'key': f'mirx:frag:panic:{r.msg[:60]}', 'desc': f'panic in {r.site}: {r.msg}', 'values': {}, 'unit': res['unit']})
+            res['violations'].append({'key': f'mirx:frag:panic:{r.msg[:60]}', 'desc': f'panic in {r.site}: {r.msg}', 'values': ex.model_values(), 'unit': res['unit']})
         elif len(res['samples']) < 3 and r not in res['samples']:
             res['samples'].append(r)
 
